@@ -41,7 +41,7 @@ CHECKS = [
         "reconnect caller or a task that stops the worker mid-exchange share one real ECU object; for every scenario (reply scripts R/PR/-/C per caller and per-transmission scripts like PC|R, start orders, "
         "max_retry 0/1) every schedule with <= 2 deviations (3 in the thorough tier on two-caller scenarios) is executed: reply "
         "delivered while tasks are runnable, timer before a deliverable reply, both in one iteration, one cancel at any "
-        "iteration boundary. Reply scripts include busyRepeatRequest per transmission (B|R, B|B|R: the back-off sleep lies inside the exchange) and final negative replies. A monitor checks that no other task writes/reconnects inside an exchange window, that every "
+        "iteration boundary. Reply scripts include busyRepeatRequest per transmission (B|R, B|B|R: the back-off sleep lies inside the exchange) and final negative replies. Callers that skip the hooks; a caller whose cancellation took effect must end with CancelledError; which request each reply object names is inspected once all callers were served. A monitor checks that no other task writes/reconnects inside an exchange window, that every "
         "returned reply echoes the caller's own identifier, and that all callers finish (no lost lock).",
         "note": "Trusted: CPython asyncio primitives and FIFO callback order as reproduced by vloop; in-memory tagging transport. "
         "Not covered: more than 3 callers + worker, more than the stated deviations; per-scenario execution caps are reported in the evidence.",
